@@ -33,6 +33,7 @@ def gen(rng, tier, idx):
     walk = list(names)
     rng.shuffle(walk)
     c['walk'] = walk
+    c['swapper_grid'] = rng.random() < 0.25
     return c
 
 
@@ -233,6 +234,24 @@ def run(case, tape=None):
         for nxt in walk[1:]:
             grid.setLayout(nxt)
             check_accessors(grid, G, eta, case, rank)
+        if case.get('swapper_grid') and len(case['nprocs']) == 2 and ndim >= 3:
+            # the same accessors on a Grid whose layouts live in several differently distributed groups
+            from pygyro.model.layout import LayoutSwapper
+            from checks import c03
+            groups, pattern = c03.DRIVER[0]
+            g3 = list(case['nprocs'])
+            shape3 = [max(max(g3), n) for n in shape[:3]]
+            eta3 = [2000.0 * (d + 1) + np.arange(n, dtype=float) for d, n in enumerate(shape3)]
+            sw = LayoutSwapper(comm, [dict(x) for x in groups], c03._expand(pattern, g3), eta3, 'v_parallel_2d')
+            G3 = cm.global_array(shape3, 'float64', salt=7)
+            g2 = Grid(eta3, [], sw, 'v_parallel_2d', comm)
+            g2.getAllData()[:] = cm.local(G3, sw.getLayout('v_parallel_2d'))
+            check_accessors(g2, G3, eta3, case, rank)
+            for nxt in ('mode_solve', 'v_parallel_1d', 'poloidal', 'v_parallel_2d'):
+                g2.setLayout(nxt)
+                check_accessors(g2, G3, eta3, case, rank)
+            if rank == 0:
+                w.probe('accessors_on_swapper_grid')
         return dict(tables=tables, coords=coords, bufferSize=int(h.bufferSize))
 
     def post(w, results):
